@@ -61,6 +61,8 @@ type key struct {
 	raw   []byte      // verifier.PublicKey.Value form
 	jwk   *jwk.JWK
 	origin string
+	kt       kmsapi.KeyType // key type and public key bytes in the form a KMS imports them (PubKeyBytesToHandle)
+	kmsBytes []byte
 }
 
 func curveOf(f string) elliptic.Curve {
@@ -244,8 +246,23 @@ func newBareKey(id int, name, f string) *key {
 	}
 
 	k.fill()
+	k.kmsForm()
 
 	return k
+}
+
+// kmsForm sets the importable form of a bare key (Ed25519 and the NIST curves, r||s signatures).
+func (k *key) kmsForm() {
+	switch k.fam {
+	case "FEd25519":
+		k.kt, k.kmsBytes = kmsapi.ED25519Type, k.raw
+	case "FP256":
+		k.kt, k.kmsBytes = kmsapi.ECDSAP256TypeIEEEP1363, k.raw
+	case "FP384":
+		k.kt, k.kmsBytes = kmsapi.ECDSAP384TypeIEEEP1363, k.raw
+	case "FP521":
+		k.kt, k.kmsBytes = kmsapi.ECDSAP521TypeIEEEP1363, k.raw
+	}
 }
 
 // newPartyKeys creates the honest party's keys: inside a real local KMS where the KMS can hold them, with the
@@ -287,6 +304,10 @@ func newPartyKeys(firstID int) []*key {
 		}
 
 		k.fill()
+
+		if inKMS {
+			k.kt, k.kmsBytes = kt, s.PublicKeyBytes()
+		}
 
 		out = append(out, k)
 	}
@@ -517,21 +538,23 @@ type KeyPub struct {
 	Alg   string `json:"alg,omitempty"`
 	HProc string `json:"hproc,omitempty"`
 	Raw   []byte `json:"raw"`
+	KT    string `json:"kt,omitempty"`
+	KMS   []byte `json:"kms,omitempty"`
 }
 
 func (w *world) export() []KeyPub {
 	var out []KeyPub
 
 	for _, k := range w.party {
-		out = append(out, KeyPub{Group: "party", Name: k.name, ID: k.id, Fam: k.fam, Alg: k.alg, HProc: k.hproc, Raw: k.raw})
+		out = append(out, KeyPub{Group: "party", Name: k.name, ID: k.id, Fam: k.fam, Alg: k.alg, HProc: k.hproc, Raw: k.raw, KT: string(k.kt), KMS: k.kmsBytes})
 	}
 
 	for _, k := range w.attacker {
-		out = append(out, KeyPub{Group: "attacker", Name: k.name, ID: k.id, Fam: k.fam, Raw: k.raw})
+		out = append(out, KeyPub{Group: "attacker", Name: k.name, ID: k.id, Fam: k.fam, Raw: k.raw, KT: string(k.kt), KMS: k.kmsBytes})
 	}
 
 	for _, k := range w.extra {
-		out = append(out, KeyPub{Group: "extra", Name: k.name, ID: k.id, Fam: k.fam, Raw: k.raw})
+		out = append(out, KeyPub{Group: "extra", Name: k.name, ID: k.id, Fam: k.fam, Raw: k.raw, KT: string(k.kt), KMS: k.kmsBytes})
 	}
 
 	return out
@@ -558,6 +581,7 @@ func importWorld(ks []KeyPub) *world {
 		}
 
 		k.fill()
+		k.kt, k.kmsBytes = kmsapi.KeyType(p.KT), p.KMS
 
 		switch p.Group {
 		case "party":
